@@ -41,6 +41,7 @@ Deliver(stk, dcs, x) ==
 TokValue(t) == CASE t.t = "null" -> VNone
                  [] t.t = "true" -> [t |-> "int", x |-> 1]
                  [] t.t = "int" -> VInt(t.x)
+                 [] t.t = "bigint" -> [t |-> "big", s |-> t.s]      \* integers beyond TLC's 32 bits, as decimal text
                  [] t.t = "real" -> VReal(t.n, t.d)
                  [] t.t = "str" -> IF t.s = "nan" THEN VNaN          \* the user-chosen marker strings (exact match only)
                                    ELSE IF t.s = "inf" THEN [t |-> "inf", s |-> 1]
@@ -51,7 +52,7 @@ TokValue(t) == CASE t.t = "null" -> VNone
 Consume(t) ==
   LET no == [ok |-> 0, stack |-> stack, docs |-> docs]
       yes(r) == [ok |-> 1, stack |-> r.stack, docs |-> r.docs]
-  IN CASE t.t \in {"null", "true", "int", "real"} -> IF WantsValue THEN yes(Deliver(stack, docs, TokValue(t))) ELSE no
+  IN CASE t.t \in {"null", "true", "int", "bigint", "real"} -> IF WantsValue THEN yes(Deliver(stack, docs, TokValue(t))) ELSE no
        [] t.t = "str" ->
             IF WantsValue THEN yes(Deliver(stack, docs, TokValue(t)))
             ELSE IF stack # <<>> /\ JTop.k = "obj" /\ JTop.st \in {"first", "comma"} THEN
